@@ -82,4 +82,39 @@ let () =
       (match M.slice_range (nl w) (to_option to_n lo) (to_option to_n hi) with
        | M.RangeOk ws -> of_nl ws | M.RangeValueError -> L [A "valueerror"]) | _ -> raise (Parse_error "args"))
 
+
+(* ---- index + single-term queries (C01, C02, C05, C17, C08) ---- *)
+let of_exn = function M.ValueError -> "ValueError" | M.KeyError -> "KeyError" | M.TypeError -> "TypeError"
+  | M.IndexError -> "IndexError" | M.TermMissing -> "TermMissingError"
+let of_api f = function
+  | M.AOk a -> L [A "ok"; f a]
+  | M.AExc e -> L [A "exc"; A (of_exn e)]
+  | M.AFault (k, b, i) -> L [A "fault"; A (match k with M.Rd -> "R" | M.Wr -> "W"); of_n b; of_n i]
+  | M.AFuel -> L [A "fuel"]
+let to_docs = to_list (to_list to_n)
+let run_query ix = function
+  | L [A "tf"; t] -> of_api of_nl (M.termfreqs ix (to_n t))
+  | L [A "df"; t] -> of_api of_n (M.docfreq ix (to_n t))
+  | L [A "pos"; t] -> of_api (of_list of_nl) (M.positions ix (to_n t))
+  | L [A "lens"] -> L [A "ok"; of_nl (M.doclengths ix)]
+  | L [A "n"] -> L [A "ok"; of_n (M.corpus_size ix)]
+  | L [A "total"] -> L [A "ok"; of_n (M.total_len ix)]
+  | _ -> raise (Parse_error "query")
+let spec_query docs = function
+  | L [A "tf"; t] -> L [A "ok"; of_nl (M.tf_spec docs (to_n t))]
+  | L [A "df"; t] -> L [A "ok"; of_n (M.df_spec docs (to_n t))]
+  | L [A "pos"; t] -> L [A "ok"; of_list of_nl (M.positions_spec docs (to_n t))]
+  | L [A "lens"] -> L [A "ok"; of_nl (M.lens_spec docs)]
+  | L [A "n"] -> L [A "ok"; A (string_of_int (List.length docs))]
+  | L [A "total"] -> L [A "ok"; of_n (M.total_spec docs)]
+  | _ -> raise (Parse_error "query")
+let () =
+  register "index_query" (function [tr; bs; docs; L qs] ->
+      (match M.index (to_bool tr) (to_nat bs) (to_docs docs) with
+       | M.AOk ix -> L [A "ok"; L (List.map (run_query ix) qs)]
+       | other -> of_api (fun _ -> A "x") other)
+    | _ -> raise (Parse_error "args"));
+  register "spec_index_query" (function [docs; L qs] -> L [A "ok"; L (List.map (spec_query (to_docs docs)) qs)]
+    | _ -> raise (Parse_error "args"))
+
 let () = main ()
